@@ -1,6 +1,7 @@
 package streams
 
 import (
+	"github.com/lmorg/murex/utils/verifhook"
 	"io"
 
 	"github.com/lmorg/murex/lang/stdio"
@@ -14,10 +15,12 @@ func (stdin *Stdin) Write(p []byte) (int, error) {
 	}
 
 	for {
+		verifhook.Gate(stdin, "w.check")
 		select {
 		case <-stdin.ctx.Done():
 			stdin.mutex.Lock()
 			stdin.buffer = []byte{}
+			verifhook.Emit(stdin, "w.cancel", "")
 			stdin.mutex.Unlock()
 			return 0, io.ErrClosedPipe
 		default:
@@ -27,6 +30,7 @@ func (stdin *Stdin) Write(p []byte) (int, error) {
 		stdin.mutex.Lock()
 		buffSize := len(stdin.buffer)
 		maxBufferSize := stdin.max
+		verifhook.Emit(stdin, "w.check", "", int64(buffSize), int64(maxBufferSize))
 		//stdin.mutex.RUnlock()
 		stdin.mutex.Unlock()
 
@@ -35,9 +39,11 @@ func (stdin *Stdin) Write(p []byte) (int, error) {
 		}
 	}
 
+	verifhook.Gate(stdin, "w.append")
 	stdin.mutex.Lock()
 	stdin.buffer = appendBytes(stdin.buffer, p...)
 	stdin.bWritten += uint64(len(p))
+	verifhook.Emit(stdin, "w.append", "", int64(len(p)), int64(stdin.bWritten), int64(len(stdin.buffer)))
 	stdin.mutex.Unlock()
 
 	return len(p), nil
@@ -57,8 +63,10 @@ func (stdin *Stdin) WriteArray(dataType string) (stdio.ArrayWriter, error) {
 func (stdin *Stdin) ReadFrom(r io.Reader) (int64, error) {
 	var total int64
 
+	verifhook.Gate(stdin, "rf.start")
 	stdin.mutex.Lock()
 	stdin.max = 0
+	verifhook.Emit(stdin, "max0", "")
 	stdin.mutex.Unlock()
 
 	var rErr, wErr error
